@@ -26,6 +26,7 @@ import (
 	"os"
 	"os/exec"
 	"path/filepath"
+	"regexp"
 	"sort"
 	"strconv"
 	"strings"
@@ -48,9 +49,12 @@ func init() {
 		Rule: "corpus (inputs of the repaired findings F-C15-1 and F-C15-2, shapes of past seeded defects); exhaustive: all 21 unordered pairs of the 6 operation kinds " +
 			"(gorillamux FindRoute, legacy FindRoute, ValidateRequest, ValidateResponse, VisitJSON, NewSchemaRefForValue) × {fresh process (first use raced), warm process} " +
 			"on a document with patterns, uniqueItems arrays, scalar defaults, allOf/oneOf, multipart and urlencoded bodies with additionalProperties schemas; " +
-			"then a seeded random stream of documents (1-3 operations, random schemas of depth ≤ 3, per-case unique patterns so that pattern compilation is raced even in a warm process) " +
+			"the same pattern text reached with two regex compilers (per-call option) × document validated with the default / the second compiler / pattern validation off × {fresh, warm}; " +
+			"fresh-process first use of eight self-referential Go types; " +
+			"then a seeded random stream of documents (1-4 operations, several methods under one path item, component schemas shared by $ref, security requirements, string formats, random schemas of depth ≤ 3, per-case unique patterns so that pattern compilation is raced even in a warm process) " +
+			"with per-call options (regex compiler, defaults, multi-error, exclusions, authentication outcome) " +
 			"and 2-6 calls run by 2-12 goroutines, 1-3 calls each, 1-2 rounds on freshly loaded documents. Every case runs in a child of the -race harness; " +
-			"verdicts are compared with the same call run alone on a freshly loaded document; the document's canonical JSON is compared before/after. " +
+			"verdicts are compared with the same call run alone on a freshly loaded document — for fresh-process cases alone means in two FURTHER fresh processes that run the calls sequentially in forward and reverse order (process-wide caches survive a reloaded document) —; the document's canonical JSON is compared before/after. " +
 			"A case is non-trivial when at least two goroutines run (the driver reports operation kinds, kind pairs, raced cells).",
 		Exhaustive: true,
 		Gen:        genC15,
@@ -141,10 +145,26 @@ func runFresh(c hx.Case, timeout time.Duration) any {
 func runC15(c hx.Case) any {
 	c15Env()
 	if jbool(c, "cold") {
-		return runFresh(c, 60*time.Second)
+		// "the verdict it returns when run alone": process-wide state (caches) survives a freshly loaded document,
+		// so the solo verdicts are taken in two further FRESH processes that run the calls one after the other,
+		// in forward and in reverse order, and are handed to the process that runs them concurrently
+		x := cloneCase(c)
+		for _, order := range []string{"fwd", "rev"} {
+			y := cloneCase(c)
+			y["soloOrder"] = order
+			if m, ok := runFresh(y, 60*time.Second).(map[string]any); ok {
+				if l, ok := m["solo"].([]any); ok {
+					x["solo_"+order] = l
+				}
+			}
+		}
+		return runFresh(x, 60*time.Second)
 	}
 	return hx.RunIsolated("C15", c, 60000)
 }
+
+// a second regex dialect (per-call option Options.RegexCompiler / SetSchemaRegexCompiler): case-insensitive
+func c15CI(expr string) (openapi3.RegexMatcher, error) { return regexp.Compile("(?i)" + expr) }
 
 // ---------------------------------------------------------------- race log
 
@@ -228,11 +248,23 @@ func c15DocJSON(doc map[string]any) []byte {
 			resp["content"] = map[string]any{"application/json": map[string]any{"schema": r["schema"]}}
 		}
 		oper["responses"] = map[string]any{"200": resp}
+		if jbool(op, "secure") {
+			oper["security"] = []any{map[string]any{"k": []any{}}}
+		}
 		item[jstr(op, "method")] = oper
 	}
 	d := map[string]any{"openapi": "3.0.0", "info": map[string]any{"title": "t", "version": "1"}, "paths": paths}
+	comps := map[string]any{}
 	if s, ok := doc["schemas"].(map[string]any); ok && len(s) > 0 {
-		d["components"] = map[string]any{"schemas": s}
+		comps["schemas"] = s
+	}
+	for _, o := range jlist(doc["ops"]) {
+		if jbool(o.(map[string]any), "secure") {
+			comps["securitySchemes"] = map[string]any{"k": map[string]any{"type": "apiKey", "in": "header", "name": "X-Key"}}
+		}
+	}
+	if len(comps) > 0 {
+		d["components"] = comps
 	}
 	if jbool(doc, "servers") {
 		d["servers"] = []any{map[string]any{"url": "http://example.com/"}}
@@ -247,20 +279,31 @@ type c15World struct {
 	l   routers.Router
 }
 
+// c15DocRx: how the document is validated ("" default regex compiler, "ci" the second dialect, "off" pattern
+// validation of the document disabled) — the same options go to legacy.NewRouter, which validates again.
+var c15DocRx string
+
 func c15Load(data []byte) (*c15World, error) {
 	loader := openapi3.NewLoader()
 	doc, err := loader.LoadFromData(data)
 	if err != nil {
 		return nil, fmt.Errorf("load: %w", err)
 	}
-	if err := doc.Validate(context.Background()); err != nil {
+	var vopts []openapi3.ValidationOption
+	switch c15DocRx {
+	case "ci":
+		vopts = append(vopts, openapi3.SetRegexCompiler(c15CI))
+	case "off":
+		vopts = append(vopts, openapi3.DisableSchemaPatternValidation())
+	}
+	if err := doc.Validate(context.Background(), vopts...); err != nil {
 		return nil, fmt.Errorf("validate: %w", err)
 	}
 	g, err := gorillamux.NewRouter(doc)
 	if err != nil {
 		return nil, fmt.Errorf("gorillamux: %w", err)
 	}
-	l, err := legacy.NewRouter(doc)
+	l, err := legacy.NewRouter(doc, vopts...)
 	if err != nil {
 		return nil, fmt.Errorf("legacy: %w", err)
 	}
@@ -443,6 +486,9 @@ func c15Request(w *c15World, docSpec, call map[string]any) *http.Request {
 	if h := jstr(call, "header"); h != "" {
 		req.Header.Set("X-H", h)
 	}
+	if jbool(call, "key") {
+		req.Header.Set("X-Key", "secret")
+	}
 	return req
 }
 
@@ -495,9 +541,17 @@ func c15Exec(w *c15World, docSpec, call map[string]any) (res string) {
 		if err != nil {
 			return "route-error: " + err.Error()
 		}
-		in := &openapi3filter.RequestValidationInput{Request: req, PathParams: pp, Route: route,
-			Options: &openapi3filter.Options{SkipSettingDefaults: jbool(call, "skipDefaults"), MultiError: jbool(call, "multi"),
-				AuthenticationFunc: openapi3filter.NoopAuthenticationFunc}}
+		opt := &openapi3filter.Options{SkipSettingDefaults: jbool(call, "skipDefaults"), MultiError: jbool(call, "multi"),
+			ExcludeRequestBody: jbool(call, "exBody"), ExcludeRequestQueryParams: jbool(call, "exQuery"),
+			ExcludeReadOnlyValidations: jbool(call, "exRO"),
+			AuthenticationFunc:         openapi3filter.NoopAuthenticationFunc}
+		if jstr(call, "auth") == "deny" {
+			opt.AuthenticationFunc = func(context.Context, *openapi3filter.AuthenticationInput) error { return fmt.Errorf("denied") }
+		}
+		if jstr(call, "rx") == "ci" {
+			opt.RegexCompiler = c15CI
+		}
+		in := &openapi3filter.RequestValidationInput{Request: req, PathParams: pp, Route: route, Options: opt}
 		err = openapi3filter.ValidateRequest(ctx, in)
 		after := ""
 		if req.Body != nil {
@@ -522,7 +576,8 @@ func c15Exec(w *c15World, docSpec, call map[string]any) (res string) {
 			RequestValidationInput: &openapi3filter.RequestValidationInput{Request: req, PathParams: pp, Route: route},
 			Status:                 status,
 			Header:                 http.Header{"Content-Type": []string{"application/json"}},
-			Options:                &openapi3filter.Options{IncludeResponseStatus: true, MultiError: jbool(call, "multi")},
+			Options: &openapi3filter.Options{IncludeResponseStatus: true, MultiError: jbool(call, "multi"),
+				ExcludeResponseBody: jbool(call, "exBody"), ExcludeWriteOnlyValidations: jbool(call, "exRO")},
 		}
 		rin.SetBodyBytes([]byte(jstr(call, "body")))
 		return errText(openapi3filter.ValidateResponse(ctx, rin))
@@ -537,6 +592,9 @@ func c15Exec(w *c15World, docSpec, call map[string]any) (res string) {
 		}
 		var opts []openapi3.SchemaValidationOption
 		set := false
+		if jstr(call, "rx") == "ci" {
+			opts = append(opts, openapi3.SetSchemaRegexCompiler(c15CI))
+		}
 		for _, o := range toStrs(call["opts"]) {
 			switch o {
 			case "multi":
@@ -598,6 +656,23 @@ func runC15Child(c hx.Case) any {
 		return map[string]any{"kind": "clean", "race": false, "diverge": false, "docChanged": false, "detector": raceEnabled}
 	}
 	data := c15DocJSON(docSpec)
+	c15DocRx = jstr(docSpec, "docRx")
+	if order := jstr(c, "soloOrder"); order != "" {
+		// solo mode: nothing concurrent; every call once, one after the other, each on a freshly loaded document
+		solo := make([]any, len(calls))
+		for n := range calls {
+			i := n
+			if order == "rev" {
+				i = len(calls) - 1 - n
+			}
+			w, err := c15Load(data)
+			if err != nil {
+				return map[string]any{"kind": "setup", "setupError": err.Error()}
+			}
+			solo[i] = c15Exec(w, docSpec, calls[i].(map[string]any))
+		}
+		return map[string]any{"kind": "solo", "solo": solo}
+	}
 	readRaceLog() // discard anything left over from an earlier case of this (pooled) process
 	type obs struct {
 		call int
@@ -678,18 +753,48 @@ func runC15Child(c hx.Case) any {
 		}
 		return soloSeen[ci][res]
 	}
+	// solo verdicts from fresh processes (cold cases): forward and reverse order
+	soloF, soloR := toStrs(c["solo_fwd"]), toStrs(c["solo_rev"])
+	fresh := len(soloF) == len(calls) && len(soloR) == len(calls)
+	if fresh {
+		for i := range calls {
+			if !stable[i] || soloF[i] == soloR[i] {
+				continue
+			}
+			if seenAlone(i, soloF[i]) && seenAlone(i, soloR[i]) {
+				stable[i] = false // not reproducible alone either
+				continue
+			}
+			divs = append(divs, fmt.Sprintf("call %d: verdict depends on which calls ran before it in the process: %q when the calls run in order, %q in reverse order",
+				i, clip(soloF[i], 300), clip(soloR[i], 300)))
+		}
+	}
+	alone := append([]string{}, ref...)
+	if fresh {
+		for i := range calls {
+			if !stable[i] || soloF[i] != soloR[i] {
+				continue
+			}
+			alone[i] = soloF[i]
+			if ref[i] != soloF[i] && !seenAlone(i, soloF[i]) {
+				// the state the concurrent calls left behind in this process changed what the call returns alone
+				divs = append(divs, fmt.Sprintf("call %d: alone in a fresh process %q, alone in the process after the concurrent calls %q",
+					i, clip(soloF[i], 300), clip(ref[i], 300)))
+			}
+		}
+	}
 	for _, o := range all {
 		if !stable[o.call] {
 			unstable++
 			continue
 		}
-		if o.res != ref[o.call] {
+		if o.res != alone[o.call] {
 			if seenAlone(o.call, o.res) {
 				unstable++
 				continue
 			}
 			if len(divs) < 3 {
-				divs = append(divs, fmt.Sprintf("call %d: concurrent %q, alone %q", o.call, clip(o.res, 300), clip(ref[o.call], 300)))
+				divs = append(divs, fmt.Sprintf("call %d: concurrent %q, alone %q", o.call, clip(o.res, 300), clip(alone[o.call], 300)))
 			} else {
 				divs = append(divs, "")
 			}
@@ -819,6 +924,7 @@ func cmpC15(c hx.Case, impl any, reply map[string]any) hx.Verdict {
 
 type c15Gen struct {
 	r   *hx.Rng
+	schemas map[string]any // component schemas of the document being generated ($ref targets)
 	tag string // makes the patterns of this case unique in the process (cold compile even when warm)
 	n   int
 	sharedDefaults bool // may produce the schema shape of the repaired finding F-C15-1 (object default receiving nested defaults)
@@ -838,7 +944,7 @@ func (g *c15Gen) pattern() string {
 	}
 }
 
-var c15Strings = []string{"ab", "abab", "x12", "zz", "", "abc", "ba"}
+var c15Strings = []string{"ab", "abab", "x12", "zz", "", "abc", "ba", "AB", "aBAb", "X12", "2020-01-02"}
 
 func (g *c15Gen) scalar() map[string]any {
 	switch g.r.Intn(4) {
@@ -867,6 +973,9 @@ func (g *c15Gen) scalar() map[string]any {
 		}
 		return s
 	case 2:
+		if g.r.Chance(40) {
+			return map[string]any{"type": "string", "format": "date"} // the process-wide format registry
+		}
 		return map[string]any{"type": "boolean"}
 	default:
 		return map[string]any{"type": "string", "pattern": g.pattern()}
@@ -927,6 +1036,13 @@ func (g *c15Gen) object(depth int) map[string]any {
 func (g *c15Gen) value(s map[string]any, depth int) any {
 	if g.r.Chance(8) {
 		return hx.Pick(g.r, []any{nil, 7, "zz", []any{1, 1}, map[string]any{}})
+	}
+	if ref, ok := s["$ref"].(string); ok {
+		t, _ := g.schemas[strings.TrimPrefix(ref, "#/components/schemas/")].(map[string]any)
+		if t == nil || depth > 6 {
+			return nil
+		}
+		return g.value(t, depth+1)
 	}
 	for _, k := range []string{"allOf", "anyOf", "oneOf"} {
 		if l, ok := s[k].([]any); ok && len(l) > 0 {
@@ -1020,13 +1136,40 @@ func (g *c15Gen) formValue(name string, s map[string]any) string {
 }
 
 func (g *c15Gen) doc(nops int) map[string]any {
+	// component schemas first: operations may share them by $ref (one *Schema object reached from several places)
+	g.schemas = map[string]any{"S0": g.schema(3), "S1": g.schema(2)}
+	if g.r.Chance(40) {
+		g.schemas["S2"] = map[string]any{"type": "object", "properties": map[string]any{
+			"s0": map[string]any{"$ref": "#/components/schemas/S0"}, "l": map[string]any{"type": "array", "items": map[string]any{"$ref": "#/components/schemas/S1"}}}}
+	}
+	jsonSchema := func() map[string]any {
+		if g.r.Chance(35) {
+			names := c15_sortedKeys(g.schemas)
+			return map[string]any{"$ref": "#/components/schemas/" + hx.Pick(g.r, names)}
+		}
+		return g.schema(2)
+	}
 	paths := []string{"/p0/{id}", "/p1", "/p2/{id}/sub"}
-	methods := []string{"post", "put", "post"}
+	methods := []string{"post", "put", "get", "delete", "patch"}
+	used := map[string]bool{}
 	var ops []any
 	for i := 0; i < nops; i++ {
-		op := map[string]any{"path": paths[i], "method": methods[i]}
+		// several operations may live under ONE path item (different methods): the routers pick by method
+		path := paths[i%len(paths)]
+		if i > 0 && g.r.Chance(50) {
+			path = ops[g.r.Intn(len(ops))].(map[string]any)["path"].(string)
+		}
+		method := hx.Pick(g.r, methods)
+		for n := 0; used[path+" "+method] && n < 10; n++ {
+			method = methods[(n+i)%len(methods)]
+		}
+		if used[path+" "+method] {
+			continue
+		}
+		used[path+" "+method] = true
+		op := map[string]any{"path": path, "method": method}
 		var params []any
-		if strings.Contains(paths[i], "{id}") {
+		if strings.Contains(path, "{id}") {
 			ps := map[string]any{"type": "integer"}
 			if g.r.Bool() {
 				ps = map[string]any{"type": "string", "pattern": g.pattern()}
@@ -1044,21 +1187,26 @@ func (g *c15Gen) doc(nops int) map[string]any {
 			params = append(params, map[string]any{"name": "X-H", "in": "header", "schema": map[string]any{"type": "string", "pattern": g.pattern()}})
 		}
 		op["params"] = params
-		switch g.r.Intn(5) {
-		case 0, 1:
-			op["body"] = map[string]any{"mt": "application/json", "schema": g.schema(2)}
-		case 2:
-			op["body"] = map[string]any{"mt": "multipart/form-data", "schema": g.formSchema()}
-		case 3:
-			op["body"] = map[string]any{"mt": "application/x-www-form-urlencoded", "schema": g.formSchema()}
+		if method == "post" || method == "put" || method == "patch" {
+			switch g.r.Intn(5) {
+			case 0, 1, 4:
+				op["body"] = map[string]any{"mt": "application/json", "schema": jsonSchema()}
+			case 2:
+				op["body"] = map[string]any{"mt": "multipart/form-data", "schema": g.formSchema()}
+			case 3:
+				op["body"] = map[string]any{"mt": "application/x-www-form-urlencoded", "schema": g.formSchema()}
+			}
 		}
 		if g.r.Chance(70) {
-			op["resp"] = map[string]any{"schema": g.schema(2)}
+			op["resp"] = map[string]any{"schema": jsonSchema()}
+		}
+		if g.r.Chance(25) {
+			op["secure"] = true // security requirement: the per-call AuthenticationFunc decides
 		}
 		ops = append(ops, op)
 	}
-	schemas := map[string]any{"S0": g.schema(3), "S1": g.schema(2)}
-	return map[string]any{"ops": ops, "schemas": schemas, "servers": g.r.Chance(20)}
+	return map[string]any{"ops": ops, "schemas": g.schemas, "servers": g.r.Chance(20),
+		"docRx": hx.Pick(g.r, []string{"", "ci", "off"})}
 }
 
 func bodySchemaProps(s map[string]any) map[string]any {
@@ -1082,8 +1230,14 @@ func (g *c15Gen) call(kind string, doc map[string]any) map[string]any {
 	c := map[string]any{"k": kind}
 	reqPart := func() {
 		c["op"] = idx
-		c["pathv"] = hx.Pick(g.r, []string{"7", "ab", "x12", "12"})
+		c["pathv"] = hx.Pick(g.r, []string{"7", "ab", "x12", "12", "AB"})
 		c["router"] = hx.Pick(g.r, []string{"g", "l"})
+		if jbool(op, "secure") {
+			c["key"] = g.r.Chance(80)
+			if g.r.Chance(30) {
+				c["auth"] = "deny"
+			}
+		}
 		for _, p := range jlist(op["params"]) {
 			pm := p.(map[string]any)
 			ps := pm["schema"].(map[string]any)
@@ -1117,6 +1271,14 @@ func (g *c15Gen) call(kind string, doc map[string]any) map[string]any {
 		reqPart()
 		c["skipDefaults"] = g.r.Chance(25)
 		c["multi"] = g.r.Chance(40)
+		if g.r.Chance(40) {
+			c["rx"] = "ci" // per-call regex compiler
+		}
+		for _, o := range []string{"exBody", "exQuery", "exRO"} {
+			if g.r.Chance(12) {
+				c[o] = true
+			}
+		}
 		if b, ok := op["body"].(map[string]any); ok {
 			bs := b["schema"].(map[string]any)
 			switch jstr(b, "mt") {
@@ -1161,13 +1323,21 @@ func (g *c15Gen) call(kind string, doc map[string]any) map[string]any {
 	case "vresp":
 		reqPart()
 		c["multi"] = g.r.Chance(40)
+		for _, o := range []string{"exBody", "exRO"} {
+			if g.r.Chance(12) {
+				c[o] = true
+			}
+		}
 		c["body"] = "{}"
 		if r, ok := op["resp"].(map[string]any); ok {
 			c["body"] = jsonText(g.value(r["schema"].(map[string]any), 0))
 		}
 	case "visit":
-		name := hx.Pick(g.r, []string{"S0", "S1"})
+		name := hx.Pick(g.r, c15_sortedKeys(doc["schemas"].(map[string]any)))
 		c["schema"] = name
+		if g.r.Chance(40) {
+			c["rx"] = "ci"
+		}
 		c["value"] = jsonText(g.value(doc["schemas"].(map[string]any)[name].(map[string]any), 0))
 		opts := []any{}
 		for _, o := range []string{"multi", "asreq", "defaults"} {
@@ -1310,6 +1480,31 @@ func genC15(ctx *hx.Ctx, emit func(hx.Case)) {
 			calls = append(calls, c)
 		}
 		emit(hx.Case{"doc": c15SinkDoc("rec"), "calls": calls, "g": 16 + 8*(i%3), "per": 8, "rounds": 1, "cold": true, "sched": 1000 + i})
+	}
+	// per-call options that change verdicts, next to process-wide caches: the SAME pattern text reached with two
+	// regex compilers (request bodies and VisitJSON), on documents validated with either compiler or with pattern
+	// validation of the document off; values on which the two dialects disagree
+	for _, cold := range []bool{true, false} {
+		for di, docRx := range []string{"", "ci", "off"} {
+			for v := 0; v < 2; v++ {
+				n++
+				doc := c15SinkDoc(fmt.Sprintf("rx%d", n))
+				doc["docRx"] = docRx
+				val := []string{"ABAB", "abab"}[v]
+				calls := []any{
+					map[string]any{"k": "visit", "schema": "S1", "value": `{"name":"` + val + `"}`, "opts": []any{"multi"}, "rx": "ci"},
+					map[string]any{"k": "visit", "schema": "S1", "value": `{"name":"` + val + `"}`, "opts": []any{"multi"}},
+					map[string]any{"k": "vreq", "op": 0, "pathv": "ab", "router": "g", "query": "q=1", "ct": "application/json",
+						"body": `{"name":"` + val + `","tags":["A","b"]}`, "skipDefaults": false, "multi": false, "rx": "ci"},
+					map[string]any{"k": "vreq", "op": 0, "pathv": "ab", "router": "l", "query": "q=1", "ct": "application/json",
+						"body": `{"name":"` + val + `","tags":["A","b"]}`, "skipDefaults": false, "multi": true},
+				}
+				if v == 1 {
+					calls[0], calls[1], calls[2], calls[3] = calls[3], calls[2], calls[1], calls[0]
+				}
+				emit(hx.Case{"doc": doc, "calls": calls, "g": 8, "per": 2, "rounds": 1, "cold": cold, "sched": 500 + n + di})
+			}
+		}
 	}
 	// single goroutine: the sequential behaviour of the same machinery (trivial cases)
 	emit(hx.Case{"doc": c15SinkDoc("one"), "calls": []any{c15SinkCall("vreq", 0), c15SinkCall("visit", 1)}, "g": 1, "per": 2, "rounds": 1, "cold": false, "sched": 1})
